@@ -154,3 +154,84 @@ where
         folder.consume_iter(iter)
     }
 }
+
+/// Opens the join exactly as `drive_unindexed` does and lends the real
+/// producer to `f` (verification hook), so that a simulation harness can play
+/// the role of rayon's `bridge_unindexed`.
+#[cfg(specs_verif)]
+pub fn verif_with_producer<J, R>(
+    j: JoinParIter<J>,
+    f: impl for<'a> FnOnce(Box<dyn VerifProducer<J::Type> + 'a>) -> R,
+) -> R
+where
+    J: ParJoin + Send,
+    J::Mask: Send + Sync,
+    J::Type: Send,
+    J::Value: Send + Sync,
+{
+    // SAFETY: same as `drive_unindexed`.
+    let (keys, values) = unsafe { j.0.open() };
+    let producer = BitProducer((&keys).iter(), 3);
+    f(Box::new(JoinProducer::<J>::new(producer, &values)))
+}
+
+/// Object-safe view of the private producer (verification hook).
+#[cfg(specs_verif)]
+pub trait VerifProducer<T>: Send {
+    /// `UnindexedProducer::split`
+    #[allow(clippy::type_complexity)]
+    fn split_box<'s>(
+        self: Box<Self>,
+    ) -> (
+        Box<dyn VerifProducer<T> + 's>,
+        Option<Box<dyn VerifProducer<T> + 's>>,
+    )
+    where
+        Self: 's;
+    /// `UnindexedProducer::fold_with` with a callback folder.
+    fn fold_box(self: Box<Self>, f: &mut dyn FnMut(T));
+}
+
+#[cfg(specs_verif)]
+impl<'a, J> VerifProducer<J::Type> for JoinProducer<'a, J>
+where
+    J: ParJoin + Send,
+    J::Type: Send,
+    J::Value: 'a + Send + Sync,
+    J::Mask: 'a + Send + Sync,
+{
+    fn split_box<'s>(
+        self: Box<Self>,
+    ) -> (
+        Box<dyn VerifProducer<J::Type> + 's>,
+        Option<Box<dyn VerifProducer<J::Type> + 's>>,
+    )
+    where
+        Self: 's,
+    {
+        let (a, b) = UnindexedProducer::split(*self);
+        (
+            Box::new(a),
+            b.map(|b| Box::new(b) as Box<dyn VerifProducer<J::Type> + 's>),
+        )
+    }
+
+    fn fold_box(self: Box<Self>, f: &mut dyn FnMut(J::Type)) {
+        struct CbFolder<'f, T>(&'f mut dyn FnMut(T));
+        impl<'f, T> Folder<T> for CbFolder<'f, T> {
+            type Result = ();
+
+            fn consume(self, item: T) -> Self {
+                (self.0)(item);
+                self
+            }
+
+            fn complete(self) {}
+
+            fn full(&self) -> bool {
+                false
+            }
+        }
+        UnindexedProducer::fold_with(*self, CbFolder(f));
+    }
+}
